@@ -697,6 +697,52 @@ def compare(ctx, pending, outs):
 # ---- entry points --------------------------------------------------------------------------------------
 
 
+def given_statistics_phase(ctx, tmpdir):
+    """'with exactly the statistics it was given': the same double-precision statistics handed over in every form
+    Standardize accepts (its own accumulate, .npy, raw binary, a Kaldi double matrix file, a Kaldi table entry) give the
+    same transform, bit for bit.  The data has a large offset and a small spread, so statistics that pass through single
+    precision anywhere lose the variance."""
+    p = post()
+    rs = np.random.RandomState(1611)
+    data = rs.normal(size=(4000, 4)) * np.array([2.0, 0.5, 0.125, 3.0]) + np.array([12.0, -35.0, 0.25, 900.0])
+    ref = p.Standardize(norm_var=True)
+    ref.accumulate(data)
+    x = data[:5].copy()
+    want = ref.apply(x.copy())
+    stats = np.zeros((2, 5))
+    stats[0, :4], stats[0, 4], stats[1, :4] = data.sum(0), len(data), (data ** 2).sum(0)
+    srcs = []
+    npy, raw = os.path.join(tmpdir, "given.npy"), os.path.join(tmpdir, "given.bin")
+    np.save(npy, stats)
+    stats.tofile(raw)
+    srcs += [("npy", lambda: p.Standardize(npy, True)), ("raw", lambda: p.Standardize(raw, True, force_as="file"))]
+    try:
+        from pydrobert.kaldi.io import open as kaldi_open
+
+        mat, ark = os.path.join(tmpdir, "given.cmvn"), os.path.join(tmpdir, "given.ark")
+        with kaldi_open(mat, mode="w") as out:
+            out.write(stats, "dm")
+        with kaldi_open("ark:" + ark, "dm", mode="w") as table:
+            table.write("global", stats)
+        srcs += [("kaldi_matrix", lambda: p.Standardize(mat, True, force_as="kaldi")), ("kaldi_table", lambda: p.Standardize("ark:" + ark, True)),
+                 ("kaldi_table_key", lambda: p.Standardize("ark:" + ark, True, key="global"))]
+    except ImportError:
+        ctx.count("pydrobert_kaldi_missing")
+    for name, load in srcs:
+        case = dict(kind="given_statistics", source=name)
+        ctx.case(case, kind="given:" + name)
+        try:
+            got = load().apply(x.copy())
+        except Exception as e:
+            ctx.violation(case, "the transform of the given statistics", "%s: %s" % (type(e).__name__, str(e)[:150]),
+                          "statistics given as a file are used as given", tags=dict(clause="given_statistics", source=name, how="raises"))
+            continue
+        if got.dtype != want.dtype or got.shape != want.shape or not np.allclose(got, want, rtol=1e-9, atol=1e-9):
+            ctx.violation(case, want[0].tolist(), got[0].tolist() if got.shape == want.shape else list(got.shape),
+                          "the same double-precision statistics give the same transform whatever form they were given in",
+                          tags=dict(clause="given_statistics", source=name))
+
+
 def run(ctx, driver):
     r = ctx.rng
     n = ctx.scale(1500, 40000)
@@ -705,6 +751,7 @@ def run(ctx, driver):
     try:
         with warnings.catch_warnings():
             warnings.simplefilter("ignore")
+            given_statistics_phase(ctx, tmpdir)
             for case in corpus():
                 eval_case(ctx, case, tmpdir, lines, pending)
             for i in range(n):
